@@ -86,10 +86,23 @@ def multi_lexer_modules():
     mods.append(("two lexers at the crate root of a module with rule sets", "pub mod sets {\n"
                  "    lexgen::lexer! {\n        pub A -> usize;\n        rule Init { $$alphabetic+ => |l| l.switch_and_return(ARule::S, 0), }\n        rule S { $$numeric+ => |l| l.switch_and_return(ARule::Init, 1), }\n    }\n"
                  "    lexgen::lexer! {\n        pub B -> usize;\n        rule Init { $$alphabetic+ => |l| l.switch_and_return(BRule::S, 0), }\n        rule S { $$numeric+ => |l| l.switch_and_return(BRule::Init, 1), }\n    }\n}\n"))
-    mods.append(("user state with lifetimes, attributes, visibility", "pub mod forms {\n    pub struct St<'a> { pub s: &'a str }\n    #[derive(Default, Clone, Debug)] pub struct Plain;\n"
-                 "    lexgen::lexer! {\n        pub(crate) A(St<'a>) -> usize;\n        type Error = u32;\n        $$alphabetic+ =? |l| l.return_(Ok(0)),\n        [' ' '\\t']+,\n    }\n"
-                 "    lexgen::lexer! {\n        /// doc comment\n        #[derive(Debug, Clone)]\n        pub B(Plain) -> &'input str;\n        let id = $$XID_Start $$XID_Continue*;\n        $id => |l| { let m = l.match_(); l.return_(m) },\n        _,\n    }\n"
-                 "    lexgen::lexer! {\n        C -> ();\n        ['a' 'a' 'b'-'d' 'c'] = (),\n        \"abc\" > ('d' | $) = (),\n    }\n}\n"))
+    # every rule kind under every form of user state (none, plain, own lifetime, 'input, two lifetimes)
+    forms = [
+        ("no user state", "", "L -> usize;"),
+        ("plain user state", "#[derive(Default, Clone, Debug)] pub struct Plain;", "L(Plain) -> usize;"),
+        ("user state with a lifetime", "#[derive(Debug)] pub struct St<'a> { pub s: &'a str }", "pub(crate) L(St<'a>) -> usize;"),
+        ("user state using 'input", "#[derive(Debug)] pub struct Inp<'i> { pub s: &'i str }", "pub L(Inp<'input>) -> usize;"),
+        ("user state with two lifetimes", "#[derive(Debug)] pub struct Two<'a, 'b> { pub s: &'a str, pub t: &'b mut Vec<u8> }", "L(Two<'a, 'b>) -> usize;"),
+    ]
+    for i, (what, decl, header) in enumerate(forms):
+        mods.append((f"all rule kinds, {what}", f"pub mod form{i} {{\n    {decl}\n"
+                     f"    lexgen::lexer! {{\n        /// doc comment\n        #[derive(Debug)]\n        {header}\n        type Error = u32;\n"
+                     "        let id = $$XID_Start $$XID_Continue*;\n"
+                     "        'a' = 0,\n        'b' => |l| l.return_(1),\n        'c' =? |l| l.return_(Ok(2)),\n        [' ' '\\t']+,\n"
+                     "        $id = 3,\n        'd' > ('e' | $) = 4,\n        ['f' 'f' 'g'-'i' 'h'] => |l| { let _ = l.match_(); l.continue_() },\n"
+                     "    }\n}\n"))
+    mods.append(("token type borrowing the input", "pub mod borrow {\n"
+                 "    lexgen::lexer! {\n        pub B -> &'input str;\n        $$alphabetic+ => |l| { let m = l.match_(); l.return_(m) },\n        _,\n    }\n}\n"))
     return mods
 
 
